@@ -304,9 +304,12 @@ pub async fn run(ctx: &Ctx, rep: &mut Report) {
     let max_n = ctx.scale(5, 6) as usize;
     let mut work = 0u64;
     rep.exhaustive = true;
-    for loaded in [false, true] {
+    // (loaded, prune_after): with prune_after 2 the blocks a reorganisation unwinds have already
+    // dropped their transactions in memory and must be reloaded from storage first
+    for (loaded, prune_after) in [(false, 8u64), (true, 8), (true, 2)] {
         let mut params = Params::with_gp(20);
         params.loading_completed = loaded;
+        params.prune_after = prune_after;
         for n in 1..=max_n {
             for parents in parent_vectors(n) {
                 work += 1;
@@ -325,7 +328,7 @@ pub async fn run(ctx: &Ctx, rep: &mut Report) {
                 rep.count("trees");
                 for perm in permutations(n) {
                     let order: Vec<Delivery> = perm.iter().map(|i| Delivery::Block(i + 1)).collect();
-                    rep.nontrivial(&format!("{}|{:?}|{:?}", loaded, parents, perm));
+                    rep.nontrivial(&format!("{}|{}|{:?}|{:?}", loaded, prune_after, parents, perm));
                     run_case(&mut b, &tree, &order, &params, rep, "C03").await;
                     rep.count(&format!("cases.{}", delivery_class(&tree, &order)));
                 }
@@ -346,7 +349,7 @@ pub async fn run(ctx: &Ctx, rep: &mut Report) {
                                 }
                             }
                         }
-                        rep.nontrivial(&format!("{}|{:?}|inj{}-{}", loaded, parents, pos, kind));
+                        rep.nontrivial(&format!("{}|{}|{:?}|inj{}-{}", loaded, prune_after, parents, pos, kind));
                         run_case(&mut b, &tree, &order, &params, rep, "C03").await;
                         rep.count(&format!("cases.{}", delivery_class(&tree, &order)));
                     }
@@ -359,6 +362,10 @@ pub async fn run(ctx: &Ctx, rep: &mut Report) {
     for r in 0..rounds {
         let mut params = Params::with_gp(if r % 3 == 0 { 6 } else { 20 });
         params.loading_completed = r % 2 == 0;
+        params.prune_after = if r % 4 < 2 { 2 } else { 8 };
+        if params.prune_after == 2 {
+            rep.count("random_trees_with_early_pruning");
+        }
         let mut b = Builder::new(&params, n_actors, &default_issuance(n_actors)).await;
         let n = 6 + rng.below(if ctx.thorough { 30 } else { 10 }) as usize;
         // two forks growing alternately from a random fork point, plus random side branches
